@@ -1,3 +1,4 @@
+import Heph.Generated.Regex
 /-! # Model of `src/compilers/{base,java,kotlin,groovy,scala}.py`
 
 For each of the four compilers a hand-written scanner on `List Char` that is the meaning of
@@ -261,11 +262,62 @@ def groovyCrashPat : List (Option Char) :=
 def groovyStackOverflowPat : List (Option Char) :=
   lit "java" ++ [none] ++ lit "lang" ++ [none] ++ lit "StackOverflowError"
 
-def crashSearch : Compiler → List Char → Bool
-  | .javac => searchThenNl "java.lang".toList                -- `(java\.lang.*)\n(.*)`
+/-! ### javac's `CRASH_REGEX`: two variants
+
+The pattern as found, `(java\.lang.*)\n(.*)`, fires on any `java.lang` that is followed by a newline
+(finding `java:crash-regex-on-quoted-java.lang`); the repaired pattern
+`(java\.lang.*)\n([ \t]+at .*)` also asks for a stack frame line right after the line that
+names `java.lang`. The scanner follows whichever of the two the regenerated pattern string
+(`Heph.Generated.javaCrashRegex`) is. -/
+
+inductive JavaCrashVariant
+  | asis | framed
+  deriving DecidableEq, Repr
+
+def javaCrashPatternAsis : String := "(java\\.lang.*)\\n(.*)"
+def javaCrashPatternFramed : String := "(java\\.lang.*)\\n([ \\t]+at .*)"
+
+def javaCrashVariantOf (pattern : String) : Option JavaCrashVariant :=
+  if pattern == javaCrashPatternAsis then some .asis
+  else if pattern == javaCrashPatternFramed then some .framed
+  else none
+
+/-- the variant the tree under check implements (an unknown pattern is treated as the repaired
+one; `Props.C14.javaCrashPattern_expected` fails for it) -/
+def javaCrashVariant : JavaCrashVariant :=
+  match javaCrashVariantOf Heph.Generated.javaCrashRegex with
+  | some v => v
+  | none => .framed
+
+/-- `[ \t]` -/
+def isBlank (c : Char) : Bool := c == ' ' || c == '\t'
+
+/-- `[ \t]+at ` at the start of a line (greedy blanks; giving one back cannot help because the
+next character would be a blank, not `a`) -/
+def frameLine (s : List Char) : Bool :=
+  match s with
+  | c :: _ => isBlank c && "at ".toList.isPrefixOf (s.dropWhile isBlank)
+  | [] => false
+
+/-- `(LIT.*)\n([ \t]+at .*)`: the literal occurs, its line is ended by a newline (`.` does not
+match one, so `\n` can only be the end of that very line) and the next line is a frame line -/
+def searchThenFrame (pat : List Char) : List Char → Bool
+  | [] => false
+  | c :: tl =>
+    (pat.isPrefixOf (c :: tl) && (match afterLine (c :: tl) with
+      | '\n' :: nxt => frameLine nxt
+      | _ => false)) || searchThenFrame pat tl
+
+def crashSearchV (v : JavaCrashVariant) : Compiler → List Char → Bool
+  | .javac => (match v with
+      | .asis => searchThenNl "java.lang".toList           -- `(java\.lang.*)\n(.*)`
+      | .framed => searchThenFrame "java.lang".toList)     -- `(java\.lang.*)\n([ \t]+at .*)`
   | .kotlinc => searchThenNl "org.jetbrains.".toList         -- `(org\.jetbrains\..*)\n(.*)`
   | .groovyc => searchW groovyCrashPat
   | .scalac => searchW (lit "at dotty")                      -- `.*at dotty(.*)`
+
+/-- the crash test of the tree under check -/
+def crashSearch (c : Compiler) (out : List Char) : Bool := crashSearchV javaCrashVariant c out
 
 def stackOverflowSearch (out : List Char) : Bool := searchW groovyStackOverflowPat out
 
@@ -309,5 +361,16 @@ def analyze (c : Compiler) (filters : List (List Char)) (out : List Char) : Resu
     let ms := findAll (matcher c) (applyFilters filters out)
     if c == .groovyc && stackOverflowSearch out && ms.isEmpty then ⟨true, []⟩
     else ⟨false, groupMsgs ms⟩
+
+/-- the same with an explicit javac crash variant (`analyze = analyzeV javaCrashVariant`) -/
+def analyzeV (v : JavaCrashVariant) (c : Compiler) (filters : List (List Char)) (out : List Char) :
+    Result :=
+  if crashSearchV v c out then ⟨true, []⟩
+  else
+    let ms := findAll (matcher c) (applyFilters filters out)
+    if c == .groovyc && stackOverflowSearch out && ms.isEmpty then ⟨true, []⟩
+    else ⟨false, groupMsgs ms⟩
+
+theorem analyze_eq_analyzeV : analyze = analyzeV javaCrashVariant := rfl
 
 end Heph.Diag
